@@ -423,6 +423,25 @@ impl Machine {
                         self.g.present.remove(&k);
                     }
                     hit = had.is_some() && !must_expire && (must_serve || matches!(r, std::task::Poll::Ready(_)) && !executed);
+                    // invalidate_on: the entry that was found is shown to the check exactly once; "stale" sends the call into its body
+                    if f.has_inval_on {
+                        let io: Vec<&Ev> = evs.iter().filter(|e| matches!(e, Ev::InvalOn { .. })).collect();
+                        if io.len() != usize::from(hit) {
+                            out.findings.push(MFinding { property: "C20", monitor: "consultation-count".into(), detail: format!("{}({k}): invalidate_on consulted {} times on the first poll, usable entry present: {hit}", f.fn_name, io.len()) });
+                        }
+                        if hit {
+                            self.g.hits += 1;
+                            if let Some(e) = self.g.present.get_mut(&k) {
+                                e.last_use = self.g.seq;
+                            }
+                            if io.iter().any(|e| matches!(e, Ev::InvalOn { verdict: true, .. })) {
+                                // counted as a hit, but the call goes on like a miss
+                                hit = false;
+                            } else {
+                                self.g.hits -= 1; // counted below
+                            }
+                        }
+                    }
                     if hit {
                         self.g.hits += 1;
                         if let Some(e) = self.g.present.get_mut(&k) {
@@ -1314,10 +1333,14 @@ pub fn suites_for(property: &str, thorough: bool) -> Vec<Suite> {
             for f in fam("core").into_iter().filter(|f| f.flavour != Flavour::Thread && f.limit == Some(3)) {
                 let mut a: Vec<MOp> = (1..=5).map(MOp::Call).collect();
                 a.push(MOp::InvWith(0b0010));
+                // two matched keys in one invalidation, with a live entry behind them
+                a.push(MOp::InvWith(0b0110));
                 if thorough {
                     a.push(MOp::InvWith(0b0100));
                 }
-                out.push(Suite { f, f2: None, group: vec![], wash: false, prune_noops: false, alphabet: a, depth: 6 });
+                // seven steps (three stores, the invalidation, three more stores) where the victim order is checked
+                let depth = if thorough || matches!(f.pol(), Pol::Fifo | Pol::Lru) { 7 } else { 6 };
+                out.push(Suite { f, f2: None, group: vec![], wash: false, prune_noops: false, alphabet: a, depth });
             }
             for (i, f) in cands.iter().enumerate() {
                 let f2 = cands.get((i + 1) % cands.len()).copied();
